@@ -21,9 +21,14 @@ pub fn sanitise(doc: &mut ADoc, rep: &mut CaseReport) {
     for (_, _, o) in doc.objects.iter_mut() {
         if let AObj::Dict(d) | AObj::Stream(d, _) = o {
             let before = d.len();
-            d.retain(|(k, v)| {
-                !(k.0 == b"Linearized" || (k.0 == b"Type" && matches!(v, AObj::Name(n) if n.0 == b"ObjStm" || n.0 == b"XRef" || n.0 == b"Linearized")))
-            });
+            let structural = |v: &AObj| matches!(v, AObj::Name(n) if n.0 == b"ObjStm" || n.0 == b"XRef" || n.0 == b"Linearized");
+            d.retain(|(k, v)| !(k.0 == b"Type" && structural(v)));
+            // a /Linearized key makes an object "the linearization dictionary" only when it has no name-valued /Type
+            // (Dictionary::get_type); next to an ordinary /Type it is an ordinary key and must survive
+            let typed = matches!(d.iter().rev().find(|(k, _)| k.0 == b"Type"), Some((_, AObj::Name(_))));
+            if !typed {
+                d.retain(|(k, _)| k.0 != b"Linearized");
+            }
             if d.len() != before {
                 rep.exclude("structural-type-at-top-level");
             }
@@ -211,12 +216,62 @@ pub fn doc_opts(run: &Run) -> DocOpts {
     o
 }
 
+/// One object nested `levels.len()` deep (even = array, odd = dictionary level). Kept in this compact form because the
+/// JSON form of a deep object exceeds serde_json's recursion limit when a replay file is read back.
+#[derive(Clone, Debug, Serialize, Deserialize)]
+pub struct DeepCase {
+    pub levels: Vec<u8>,
+    pub xref_stream: bool,
+}
+
+/// lopdf's parser rejects nesting at this depth (`reader::MAX_NESTING`); known finding C01-nesting-limit
+pub const NESTING_LIMIT: usize = 64;
+
+pub fn build_deep(levels: &[u8]) -> AObj {
+    let mut o = AObj::Int(7);
+    for k in levels.iter().rev() {
+        o = if k % 2 == 0 { AObj::Array(vec![AObj::Int(1), o]) } else { AObj::Dict(vec![(crate::model::B::from("K"), o)]) };
+    }
+    o
+}
+
+/// `tolerate`: the finding is open, so a failure at or beyond the limit is the known one (counted, not reported)
+pub fn check_deep(case: &DeepCase, tolerate: bool) -> Verdict {
+    let depth = case.levels.len();
+    let doc = ADoc {
+        version: "1.5".into(),
+        binary_mark: Default::default(),
+        objects: vec![(1, 0, build_deep(&case.levels)), (2, 0, AObj::dict(vec![("Type", AObj::name("Catalog")), ("Deep", AObj::Ref(1, 0))]))],
+        trailer: vec![(crate::model::B::from("Root"), AObj::Ref(2, 0))],
+        max_id_slack: 0,
+    };
+    let r = check(&Case { doc, xref_stream: case.xref_stream });
+    match r {
+        Ok(mut rep) => {
+            rep.label_if(depth >= 16, "depth>=16");
+            rep.label_if(depth >= NESTING_LIMIT, "depth>=64-round-trips");
+            rep.nontrivial = depth >= 8;
+            Ok(rep)
+        }
+        Err(_) if tolerate && depth >= NESTING_LIMIT => {
+            let mut rep = CaseReport::new();
+            rep.exclude("known:C01-nesting-limit");
+            Ok(rep)
+        }
+        Err(v) => Err(v),
+    }
+}
+
+pub fn deep_strategy() -> impl Strategy<Value = DeepCase> {
+    (proptest::collection::vec(0u8..2, 1..160), any::<bool>()).prop_map(|(levels, xref_stream)| DeepCase { levels, xref_stream })
+}
+
 pub fn strategy(opts: DocOpts) -> impl Strategy<Value = Case> {
     (g::document(opts), any::<bool>()).prop_map(|(doc, xref_stream)| Case { doc, xref_stream })
 }
 
 pub fn run(run: &mut Run) {
-    run.rule = "cases: random documents (G-DOC: all 10 object kinds nested, hostile bytes in names/strings/keys/stream bodies, sparse ids, generations, finite reals incl. sub-normals and |v|>=2^63, unusual version strings and binary marks) x xref table/stream, in this build configuration (par = rayon reader, seq = sequential reader; the two configurations see the same documents and are counted as separate evaluations); plus exhaustive sweeps of all 65 536 byte pairs and all 16^3+16^4 sequences over 16 escape-sensitive bytes as literal string, hex string, name and dictionary key. Oracle: load_mem(save_to(d)) equals d under CANON, twice. non-trivial = at least 3 objects and (a stream, or nesting depth >= 2, or a byte that needs escaping in a name/string/key); distinct by hash of the serialised case.".into();
+    run.rule = "cases: random documents (G-DOC: all 10 object kinds nested, hostile bytes in names/strings/keys/stream bodies, sparse ids, generations, finite reals incl. sub-normals and |v|>=2^63, unusual version strings and binary marks) x xref table/stream, in this build configuration (par = rayon reader, seq = sequential reader; the two configurations see the same documents and are counted as separate evaluations); plus exhaustive sweeps of all 65 536 byte pairs and all 16^3+16^4 sequences over 16 escape-sensitive bytes as literal string, hex string, name and dictionary key. Campaign 'deep-nesting': one object nested 1..160 levels (arrays and dictionaries mixed). Oracle: load_mem(save_to(d)) equals d under CANON, twice. non-trivial = at least 3 objects and (a stream, or nesting depth >= 2, or a byte that needs escaping in a name/string/key); distinct by hash of the serialised case.".into();
     run.assumptions = vec![
         "CANON comparator is correct (integral Real may come back as Integer; dictionaries are maps; streams compare on dict+content)".into(),
         "objects typed ObjStm/XRef/Linearized at top level and bookkeeping trailer keys are outside the domain (removed by construction, counted)".into(),
@@ -226,6 +281,11 @@ pub fn run(run: &mut Run) {
     let opts = doc_opts(run);
     let n = run.tier.pick(30_000, 600_000);
     run.campaign("roundtrip", || strategy(opts), n, check, |_c, _v| None);
+    // nesting depth as a generated quantity (the documents above nest a handful of levels): objects nested 1..160 deep.
+    // lopdf's parser refuses nesting from 64 levels on (known finding C01-nesting-limit): failures there are counted as
+    // excluded, a failure below the limit is a violation, and the finding's demo is replayed above.
+    let tolerate = run.finding_open("C01-nesting-limit");
+    run.campaign("deep-nesting", deep_strategy, run.tier.pick(600, 10_000), move |c| check_deep(c, tolerate), |_c, _v| None);
     let items = sweep_items();
     run.enumerated(
         "byte-sweeps",
@@ -239,6 +299,7 @@ pub fn run(run: &mut Run) {
 pub fn replay(file: &Value) -> Result<Verdict, String> {
     match file.get("campaign").and_then(|c| c.as_str()).unwrap_or("roundtrip") {
         "byte-sweeps" => Ok(check_sweep(&replay_case::<SweepCase>(file)?)),
+        "deep-nesting" => Ok(check_deep(&replay_case::<DeepCase>(file)?, false)),
         _ => Ok(check(&replay_case::<Case>(file)?)),
     }
 }
